@@ -377,6 +377,63 @@ def main():
     boolean("extTrailingBytesChecked", bool(re.search(r"if\s*!\s*remainder\.is_empty\(\)\s*\{\s*return\s+Err", fn_body(ext_rs, "deserialize_bytes", "fn:deserialize_bytes"))),
             "extension/types.rs deserialize_bytes refuses a non-empty remainder")
 
+    # ---- codec facts (C15), second batch: strictness of the content parsers, invitation precondition --------
+    kp_rs2 = strip_comments(non_test(read("crates/mdk-core/src/key_packages.rs")))
+    pk = fn_body(kp_rs2, "parse_serialized_key_package", "fn:parse_serialized_key_package")
+    exact = bool(re.search(r"KeyPackageIn::tls_deserialize_exact\s*\(", pk))
+    reader = bool(re.search(r"KeyPackageIn::tls_deserialize\s*\(\s*&mut", pk))
+    checks_rest = bool(re.search(r"is_empty\(\)", pk))
+    if not (exact or reader):
+        raise Missing("kp:deserialize-call")
+    boolean("kpDeserializeExact", exact or (reader and checks_rest),
+            "key_packages.rs parse_serialized_key_package: the whole content must be one KeyPackage (tls_deserialize_exact / remainder check)")
+    w_rs2 = strip_comments(non_test(read("crates/mdk-core/src/welcomes.rs")))
+    pw = fn_body(w_rs2, "parse_serialized_welcome", "fn:parse_serialized_welcome")
+    w_exact = bool(re.search(r"MlsMessageIn::tls_deserialize_exact\s*\(", pw))
+    w_reader = re.search(r"MlsMessageIn::tls_deserialize\s*\(\s*&mut\s+(\w+)\s*\)", pw)
+    if not (w_exact or w_reader):
+        raise Missing("welcome:deserialize-call")
+    w_rest = bool(w_reader and re.search(r"if\s*!\s*" + re.escape(w_reader.group(1)) + r"\.is_empty\(\)\s*\{\s*return\s+Err", pw[w_reader.end():]))
+    boolean("welcomeRejectsTrailing", w_exact or w_rest,
+            "welcomes.rs parse_serialized_welcome: bytes after the MLS message are refused")
+    g_rs = strip_comments(non_test(read("crates/mdk-core/src/groups.rs")))
+    def refuses_empty_relays(body):
+        # an early `return Err(Error::Group(..))` guarded by a condition that mentions `relays` and `is_empty()`
+        for m in re.finditer(r"\bif\b([^{;]*)\{\s*return\s+Err\s*\(\s*Error::Group", body):
+            cond = m.group(1)
+            if "relays" in cond and "is_empty()" in cond:
+                return True
+        return False
+    cg = fn_body(g_rs, "create_group", "fn:create_group")
+    am = fn_body(g_rs, "add_members", "fn:add_members")
+    boolean("inviteRequiresRelay", refuses_empty_relays(cg) and refuses_empty_relays(am),
+            "groups.rs create_group / add_members return Err(Error::Group) when members are invited and the relay set is empty")
+
+    # ---- media facts (C17, media part): scheme label, HKDF context / AAD construction --------------------
+    cr2 = strip_comments(non_test(read("crates/mdk-core/src/encrypted_media/crypto.rs")))
+    lab = fn_body(cr2, "get_scheme_label", "fn:get_scheme_label")
+    mlab = re.search(r'"' + re.escape(facts["defaultSchemeVersion"][2].split('= "')[-1].rstrip('"')) + r'"\s*=>\s*Ok\(\s*b"([^"]+)"\s*\)', lab)
+    if not mlab:
+        raise Missing("media:scheme-label")
+    strfact("mediaSchemeLabel", mlab.group(1), "crypto.rs get_scheme_label(DEFAULT_SCHEME_VERSION)")
+    def pieces(body, var):
+        """the sequence of extend_from_slice / push operations on `var`"""
+        seq = []
+        for m in re.finditer(re.escape(var) + r"\.(extend_from_slice|push)\(\s*(.*?)\s*\)\s*;", body):
+            arg = re.sub(r"\.as_bytes\(\)", "", m.group(2)).replace("&", "").strip()
+            seq.append(("nul" if (m.group(1) == "push" and arg in ("0x00", "0", "0u8")) else arg))
+        return seq
+    ctx_seq = pieces(fn_body(cr2, "build_hkdf_context", "fn:build_hkdf_context"), "context")
+    aad_seq = pieces(fn_body(cr2, "build_aad", "fn:build_aad"), "aad")
+    boolean("mediaContextAsModelled", ctx_seq == ["scheme_label", "nul", "file_hash", "nul", "mime_type", "nul", "filename", "nul", "suffix"],
+            "crypto.rs build_hkdf_context = label 00 hash 00 mime 00 filename 00 suffix: " + " ".join(ctx_seq))
+    boolean("mediaAadAsModelled", aad_seq == ["scheme_label", "nul", "file_hash", "nul", "mime_type", "nul", "filename"],
+            "crypto.rs build_aad = label 00 hash 00 mime 00 filename: " + " ".join(aad_seq))
+    mk = re.search(r'build_hkdf_context\(\s*scheme_label\s*,\s*original_hash\s*,\s*mime_type\s*,\s*filename\s*,\s*b"([^"]+)"\s*\)', cr2)
+    if not mk:
+        raise Missing("media:key-suffix")
+    strfact("mediaKeySuffix", mk.group(1), "crypto.rs derive_encryption_key_with_secret context suffix")
+
     # ---- emit -------------------------------------------------------------------------------
     lines = ["/- GENERATED by tools/gen_model.py from the current /repo source — do not edit. -/",
              "namespace MdkVerif.Generated", ""]
